@@ -575,6 +575,7 @@ class Schema(ResolverMap):
         )
 
         cloned.merge_resolvers(self)
+        cloned.default_resolver = self.default_resolver
 
         return cloned
 
